@@ -25,7 +25,7 @@ Theorem C02_partial : forall O db ban fuel,
      (post_process O (before_pp O db ban fuel (fresh 0 s)) = before_pp O db ban fuel (fresh 0 s) -> appended gl gp (rxn r)) /\
      (forall cl cp, guard cl cp -> rxn (post_process O (before_pp O db ban fuel (fresh 0 s))) = cl ++ ">>" ++ cp ->
         appended cl cp (rxn r) \/ rxn r = s \/ appended gl gp (rxn r)))
-    (admitted O ins) rows.
+    (kept_inputs O ins) rows.
 Proof. exact run_only_appends. Qed.
 
 (* generated obligation: no SMILES of the shipped database is cut by a marker (re-proved on the current file) *)
